@@ -106,6 +106,25 @@ type Type struct {
 	Impls   []string `json:"impls,omitempty"` // interface: concrete type keys implementing it (module + seen types)
 	Sealed  bool     `json:"sealed,omitempty"`
 	Variadic bool    `json:"variadic,omitempty"`
+	Sigs    map[string]Sig `json:"sigs,omitempty"` // method name -> signature (interfaces and named types)
+	Promoted map[string]string `json:"promoted,omitempty"` // named: method of (*T) promoted from an embedded field -> declaring receiver type
+}
+
+type Sig struct {
+	Params  []string `json:"params"`
+	Results []string `json:"results"`
+}
+
+func sigOf(f *types.Func) Sig {
+	sg := f.Type().(*types.Signature)
+	var s Sig
+	for i := 0; i < sg.Params().Len(); i++ {
+		s.Params = append(s.Params, tkey(sg.Params().At(i).Type()))
+	}
+	for i := 0; i < sg.Results().Len(); i++ {
+		s.Results = append(s.Results, tkey(sg.Results().At(i).Type()))
+	}
+	return s
 }
 
 type Global struct {
@@ -164,8 +183,20 @@ func tkey(t types.Type) string {
 			ty.Methods = append(ty.Methods, ms.At(i).Obj().Name())
 		}
 		pms := types.NewMethodSet(types.NewPointer(t))
+		ty.Sigs = map[string]Sig{}
 		for i := 0; i < pms.Len(); i++ {
 			ty.PtrMethods = append(ty.PtrMethods, pms.At(i).Obj().Name())
+			if f, ok := pms.At(i).Obj().(*types.Func); ok {
+				ty.Sigs[f.Name()] = sigOf(f)
+				if len(pms.At(i).Index()) > 1 {
+					if sg, ok := f.Type().(*types.Signature); ok && sg.Recv() != nil {
+						if ty.Promoted == nil {
+							ty.Promoted = map[string]string{}
+						}
+						ty.Promoted[f.Name()] = sg.Recv().Type().String()
+					}
+				}
+			}
 		}
 	case *types.Pointer:
 		ty.Kind = "pointer"
@@ -189,9 +220,11 @@ func tkey(t types.Type) string {
 		}
 	case *types.Interface:
 		ty.Kind = "interface"
+		ty.Sigs = map[string]Sig{}
 		for i := 0; i < t.NumMethods(); i++ {
 			m := t.Method(i)
 			ty.Methods = append(ty.Methods, m.Name())
+			ty.Sigs[m.Name()] = sigOf(m)
 			if !m.Exported() {
 				ty.Sealed = true
 			}
